@@ -26,16 +26,16 @@ theorem C08B_window (cap : Nat) (k : Kind) (os : List BOp) (m i : Nat)
     (hi : i ∈ (brun (binit cap k) os).acc m) : m ∈ snapshotAt (brun (binit cap k) os).pubs i :=
   (BI_brun _ os (BI_binit cap k)).window m i hi
 
-/-- … and, for schedules without receiver `close()`, being in the list then means being
+/-- … and, for schedules that never call `subscribe` on a closed handle, being in the list then means being
 subscribed in the sense of the API contract at that instant of the publish call: never a message
 of a topic the receiver was not subscribed to during the call. -/
-theorem C08B_window_partial (cap : Nat) (k : Kind) (os : List BOp) (hos : NoRCloseB os) (m i : Nat)
+theorem C08B_window_partial (cap : Nat) (k : Kind) (os : List BOp) (hos : OkSubsB (binit cap k) os) (m i : Nat)
     (hi : i ∈ (brun (binit cap k) os).acc m) : subscribedAt (brun (binit cap k) os).pubs i m = true :=
   (BW_brun _ os hos (BW_binit cap k)).acc m i hi
 
 /-- **The snapshot misses nobody** (same restriction): a receiver subscribed when the snapshot is
 taken is in it. -/
-theorem C08B_snapshot_complete_partial (cap : Nat) (k : Kind) (os : List BOp) (hos : NoRCloseB os)
+theorem C08B_snapshot_complete_partial (cap : Nat) (k : Kind) (os : List BOp) (hos : OkSubsB (binit cap k) os)
     (h : Nat) (x : Tx) (t : Topic) (m : Nat)
     (hx : txLive (brun (binit cap k) os).q h = some x)
     (hs : subscribedTo (brun (binit cap k) os).q m t = true) :
@@ -135,21 +135,38 @@ theorem C08B_flight_untouched (b : BSt) (o : BOp) (tid : Nat) (f : Flight) (hf :
         have hft' : ¬ f.tid = tid' := by rw [hft]; exact Ne.symm hne
         simp [hft']
 
-/-! ## Non-vacuity: two publisher threads racing with a subscriber and a receiver -/
+/-- executable form of `OkSubsB` for concrete schedules -/
+def okSubsB : BSt → List BOp → Bool
+  | _, [] => true
+  | b, o :: os =>
+    (match o with
+     | .api (.subscribe r _) => (match b.q.rxs[r]? with | some x => !x.closed | none => true)
+     | _ => true) && okSubsB (bstep b o) os
+
+theorem okSubsB_spec (b : BSt) (os : List BOp) (h : okSubsB b os = true) : OkSubsB b os := by
+  induction os generalizing b with
+  | nil => trivial
+  | cons o os ih =>
+    simp only [okSubsB, Bool.and_eq_true] at h
+    refine ⟨?_, ih _ h.2⟩
+    intro op he r t x hop hx
+    subst he; subst hop
+    simpa [hx] using h.1
+
+/-! ## Non-vacuity: two publisher threads racing with a subscriber, a closing receiver and a receiver -/
 
 example :
-    let os := [BOp.api (.subscribe 0 1), .api (.sClone 0),
-               .begin 7 0 1 10, .begin 8 1 1 20,          -- both sends have taken their snapshot
-               .deliver 8, .deliver 7,                    -- thread 8 reaches the mailbox first
-               .api (.unsubscribe 0 1), .begin 7 0 1 11,  -- refused: thread 7 is still inside its send
-               .deliver 7, .deliver 8,                    -- both sends return
-               .begin 7 0 1 12, .deliver 7,               -- after the unsubscribe: empty snapshot
-               .api (.tryRecv 0), .api (.tryRecv 0), .api (.tryRecv 0)]
+    let os := [BOp.api (.subscribe 0 1), .api (.sClone 0), .api (.rClone 0),
+               .begin 7 0 1 10, .begin 8 1 1 20,          -- both sends have taken their snapshot [0, 1]
+               .deliver 8, .deliver 7,                    -- thread 8 reaches mailbox 0 first
+               .api (.rClose 1),                          -- receiver 1 closes while both sends are in flight
+               .begin 7 0 1 11,                           -- refused: thread 7 is still inside its send
+               .deliver 7, .deliver 8, .deliver 7, .deliver 8,   -- both visit mailbox 1 (still alive: delivered) and return
+               .begin 7 0 1 12, .deliver 7, .deliver 7,   -- after the close: snapshot [0] only
+               .api (.tryRecv 0), .api (.tryRecv 0), .api (.tryRecv 0), .api (.tryRecv 1)]
     let b := brun (binit 4 .sync) os
-    NoRCloseB os ∧ b.pubs.length = 3 ∧ b.acc 0 = [1, 0] ∧ b.got 0 = [(1, 20), (1, 10)] ∧ b.flights = [] := by
-  refine ⟨?_, by decide, by decide, by decide, by decide⟩
-  intro o ho r he
-  subst he
-  simp at ho
+    okSubsB (binit 4 .sync) os = true ∧ b.pubs.length = 3 ∧ b.acc 0 = [1, 0, 2] ∧ b.acc 1 = [0, 1] ∧
+      b.got 0 = [(1, 20), (1, 10), (1, 12)] ∧ b.got 1 = [(1, 10)] ∧ b.flights = [] := by
+  decide
 
 end Fv.Props.C08B
